@@ -59,20 +59,20 @@ func (s *svcAcmeServer) Start(ctx context.Context) error {
 
 func initSvcAcmeClient(ctx context.Context, config *config.Config, logger *lfactory, cache acme.Cache, metrics types.Metrics, svcleader *svcLeader, checkCallback svcAcmeCheckFnc) *svcAcmeClient {
 	signer := acme.NewSigner(logger.new("acme.client"), cache, metrics)
-	callback := func(_ context.Context, item any) error { return signer.Notify(item) }
-	newQueue := func() utils.QueueFacade {
+	s := &svcAcmeClient{
+		log:     logr.FromContextOrDiscard(ctx).WithName("acme").WithName("client"),
+		leader:  svcleader,
+		check:   checkCallback,
+		config:  config,
+		signer:  signer,
+		removed: map[any]bool{},
+	}
+	s.newQueue = func() utils.QueueFacade {
 		ratelimiter := workqueue.ExponentialFailureRateLimiter[any](config.AcmeFailInitialDuration, config.AcmeFailMaxDuration)
-		return workqueue.New(callback, ratelimiter)
+		return workqueue.New(s.notify, ratelimiter)
 	}
-	return &svcAcmeClient{
-		log:      logr.FromContextOrDiscard(ctx).WithName("acme").WithName("client"),
-		leader:   svcleader,
-		check:    checkCallback,
-		config:   config,
-		signer:   signer,
-		newQueue: newQueue,
-		queue:    newQueue(),
-	}
+	s.queue = s.newQueue()
+	return s
 }
 
 type svcAcmeClient struct {
@@ -85,6 +85,31 @@ type svcAcmeClient struct {
 	mu       sync.Mutex
 	queue    utils.QueueFacade
 	started  bool
+	removed  map[any]bool
+}
+
+// notify is the callback of the work queue. The queue cannot drop an item that
+// is waiting for its turn, so an item removed in the meantime is skipped here.
+func (s *svcAcmeClient) notify(_ context.Context, item any) error {
+	s.mu.Lock()
+	removed := s.removed[item]
+	s.mu.Unlock()
+	if removed {
+		// the mark stays until the item is added again: the same item
+		// can be waiting more than once
+		return nil
+	}
+	return s.signer.Notify(item)
+}
+
+func (s *svcAcmeClient) markRemoved(item any, removed bool) {
+	s.mu.Lock()
+	defer s.mu.Unlock()
+	if removed {
+		s.removed[item] = true
+	} else {
+		delete(s.removed, item)
+	}
 }
 
 func (s *svcAcmeClient) getQueue() utils.QueueFacade {
@@ -133,6 +158,7 @@ func (s *svcAcmeClient) Start(ctx context.Context) error {
 // TODO: Can be converted to `item string` after removing legacy controller.
 func (s *svcAcmeClient) Add(item interface{}) {
 	if s.leader.isLeader() {
+		s.markRemoved(item, false)
 		s.getQueue().Add(item)
 	}
 }
@@ -140,12 +166,14 @@ func (s *svcAcmeClient) Add(item interface{}) {
 // implements utils.QueueFacade
 func (s *svcAcmeClient) AddAfter(item interface{}, duration time.Duration) {
 	if s.leader.isLeader() {
+		s.markRemoved(item, false)
 		s.getQueue().AddAfter(item, duration)
 	}
 }
 
 // implements utils.QueueFacade
 func (s *svcAcmeClient) Remove(item interface{}) {
+	s.markRemoved(item, true)
 	s.getQueue().Remove(item)
 }
 
